@@ -142,6 +142,33 @@ def run_cic(res, tier, rng):
         res.violation("corr", f"rule-dictionary model differs from implementation for {json.dumps(d)}: implementation built {canon(pg.Imply.from_cicJE(d))}",
                       {"check": "CorrCons.check_cic", "rule": d, "failing_input_found": False})
 
+def mixed_formula(rng):
+    """a negating connective over a node that mixes >= 2 atoms with >= 1 sub-proposition (all thresholds)"""
+    items = list("abcdefg")
+    def leaf(x): return {"k": "str", "id": x} if rng.random() < 0.6 else {"k": "var", "id": x, "b": [0, 1]}
+    def small():
+        k = rng.choice(["All", "Any", "AtLeast", "AtMost", "Xor"])
+        ch = [leaf(x) for x in rng.sample(items, rng.randint(1, 3))]
+        r = {"k": k, "ch": ch, "id": None}
+        if k in ("AtLeast", "AtMost"): r["v"] = rng.randint(1, 2)
+        if k == "AtLeast": r["s"] = None
+        return r
+    na, nc = rng.randint(2, 4), rng.randint(1, 2)
+    ch = [leaf(x) for x in rng.sample(items, na)] + [small() for _ in range(nc)]
+    rng.shuffle(ch)
+    k = rng.choice(["AtLeast", "AtLeast", "All", "Any", "AtMost"])
+    inner = {"k": k, "ch": ch, "id": rng.choice([None, "M"])}
+    if k in ("AtLeast", "AtMost"): inner["v"] = rng.randint(1, na + nc)
+    if k == "AtLeast": inner["s"] = rng.choice([None, None, 1])
+    w = rng.choice(["Not", "ImplyC", "ImplyQ", "XNor", "NotNot", "Xor"])
+    other = leaf(rng.choice(items))
+    if w == "Not": return {"k": "Not", "ch": [inner], "id": None}
+    if w == "NotNot": return {"k": "Not", "ch": [{"k": "Not", "ch": [inner], "id": None}], "id": None}
+    if w == "ImplyC": return {"k": "Imply", "ch": [inner, other], "id": None}
+    if w == "ImplyQ": return {"k": "Imply", "ch": [other, {"k": "Not", "ch": [inner], "id": None}], "id": None}
+    if w == "XNor": return {"k": "XNor", "ch": [inner, other], "id": None}
+    return {"k": "Not", "ch": [{"k": "Xor", "ch": [inner, other], "id": None}], "id": None}
+
 def run(res, tier, seed):
     rng = random.Random(seed * 1000003 + 4)
     res.rule = RULE
@@ -157,6 +184,8 @@ def run(res, tier, seed):
         if ast["k"] == "AtLeast" and False:
             continue
         asts.append(ast)
+    for _ in range(250 if tier == "quick" else 3000):
+        asts.append(mixed_formula(rng))
     if tier != "quick":
         gram = small_grammar(2, ["a", "b", "c"])
         rng.shuffle(gram)
